@@ -1,16 +1,23 @@
-//! Counting global allocator with thread-local counters, so that runs on different worker threads
-//! do not see each other. Wraps `System`; behaviour is otherwise unchanged.
+//! Counting global allocator with thread-local counters (so that runs on different worker threads
+//! do not see each other) and a tail red zone behind every allocation (an in-process, always-on
+//! detector for small heap overruns: the pattern is checked when the block is freed or resized).
+//! Wraps `System`; behaviour is otherwise unchanged. Under Miri the red zone is off (Miri checks
+//! every access itself).
 
 use std::alloc::{GlobalAlloc, Layout, System};
 use std::cell::Cell;
 
 pub struct Counting;
 
+const RZ: usize = if cfg!(miri) { 0 } else { 64 };
+const PATTERN: u8 = 0xFD;
+
 thread_local! {
     static LIVE: Cell<isize> = const { Cell::new(0) };
     static PEAK: Cell<isize> = const { Cell::new(0) };
     static ALLOCS: Cell<u64> = const { Cell::new(0) };
     static SHRINKS: Cell<u64> = const { Cell::new(0) };
+    static OVERRUNS: Cell<u64> = const { Cell::new(0) };
 }
 
 #[inline]
@@ -28,31 +35,80 @@ fn add(n: isize) {
     });
 }
 
+#[inline]
+fn padded(layout: Layout) -> Layout {
+    if RZ == 0 {
+        return layout;
+    }
+    // SAFETY-relevant: size + RZ cannot overflow isize for any allocation that can succeed
+    match Layout::from_size_align(layout.size().saturating_add(RZ), layout.align()) {
+        Ok(l) => l,
+        Err(_) => layout,
+    }
+}
+
+#[inline]
+unsafe fn paint(p: *mut u8, size: usize) {
+    if RZ != 0 {
+        std::ptr::write_bytes(p.add(size), PATTERN, RZ);
+    }
+}
+
+#[inline]
+unsafe fn check(p: *mut u8, size: usize) {
+    if RZ != 0 {
+        let tail = std::slice::from_raw_parts(p.add(size), RZ);
+        if tail.iter().any(|&b| b != PATTERN) {
+            let _ = OVERRUNS.try_with(|o| o.set(o.get() + 1));
+        }
+    }
+}
+
 unsafe impl GlobalAlloc for Counting {
     unsafe fn alloc(&self, layout: Layout) -> *mut u8 {
-        let p = System.alloc(layout);
+        let pl = padded(layout);
+        let p = System.alloc(pl);
         if !p.is_null() {
+            if pl.size() != layout.size() {
+                paint(p, layout.size());
+            }
             add(layout.size() as isize);
             let _ = ALLOCS.try_with(|a| a.set(a.get() + 1));
         }
         p
     }
     unsafe fn dealloc(&self, ptr: *mut u8, layout: Layout) {
-        System.dealloc(ptr, layout);
+        let pl = padded(layout);
+        if pl.size() != layout.size() {
+            check(ptr, layout.size());
+        }
+        System.dealloc(ptr, pl);
         add(-(layout.size() as isize));
     }
     unsafe fn alloc_zeroed(&self, layout: Layout) -> *mut u8 {
-        let p = System.alloc_zeroed(layout);
+        let pl = padded(layout);
+        let p = System.alloc_zeroed(pl);
         if !p.is_null() {
+            if pl.size() != layout.size() {
+                paint(p, layout.size());
+            }
             add(layout.size() as isize);
             let _ = ALLOCS.try_with(|a| a.set(a.get() + 1));
         }
         p
     }
     unsafe fn realloc(&self, ptr: *mut u8, layout: Layout, new_size: usize) -> *mut u8 {
-        let p = System.realloc(ptr, layout, new_size);
+        let pl = padded(layout);
+        let has_rz = pl.size() != layout.size();
+        let new_padded = if has_rz { new_size.saturating_add(RZ) } else { new_size };
+        if has_rz {
+            check(ptr, layout.size());
+        }
+        let p = System.realloc(ptr, pl, new_padded);
         if !p.is_null() {
-            // transient old+new is not modelled by System.realloc's interface; count the delta
+            if has_rz {
+                paint(p, new_size);
+            }
             add(new_size as isize - layout.size() as isize);
             if new_size < layout.size() {
                 let _ = SHRINKS.try_with(|a| a.set(a.get() + 1));
@@ -85,4 +141,9 @@ pub fn alloc_calls() -> u64 {
 
 pub fn shrink_events() -> u64 {
     SHRINKS.with(|a| a.get())
+}
+
+/// Number of freed/resized blocks of this thread whose tail red zone had been overwritten.
+pub fn overruns() -> u64 {
+    OVERRUNS.with(|a| a.get())
 }
